@@ -55,8 +55,9 @@ class OutSummary:
         self.prog = prog
         self.memo = {}
 
-    def get(self, g):
-        k = g.key()
+    def get(self, g, consts=None):
+        """consts: per argument a compile-time constant or None (call-site specialisation, e.g. the type selector)"""
+        k = (g.key(), consts if consts and any(c is not None for c in consts) else None)
         if k in self.memo:
             return self.memo[k]
         self.memo[k] = None
@@ -89,6 +90,10 @@ class OutSummary:
         an = Analysis(self.prog, g, hook=hook)
         st0 = an.entry_state()
         st0[PK] = frozenset()
+        if k[1]:
+            for p_, c_ in zip(g.params, k[1]):
+                if c_ is not None and ("v", p_["id"]) in st0:
+                    st0[("v", p_["id"])] = AV(c_, c_)
         an.run(state=st0)
         out = {i: {"written": None, "unwritten": None} for i in pids.values()}
         from .rules_effect import return_cases
